@@ -219,6 +219,12 @@ def do_call(P, errors, p, kind, tok, state=None, variant=0):
         p._pyroRawWireResponse = False
 
 
+class NotKnownThere(object):
+    """an argument of a class the daemon has no way to rebuild"""
+    def __init__(self):
+        self.x = 1
+
+
 def run_scripts(scripts, servertype):
     """all scripts inside one scheduler session against one daemon; returns list of traces"""
     import Pyro5.api as P
@@ -258,6 +264,13 @@ def run_scripts(scripts, servertype):
                         p.boom(0)
                     except ValueError:
                         pass
+                    if sc_i % 6 == 0:
+                        # ... and it has sent the daemon something that could not be rebuilt there: the daemon answers with its own
+                        # error and ends the connection; the proxy is as good as new for whatever comes next
+                        try:
+                            p.call(NotKnownThere())
+                        except errors.PyroError:
+                            pass
                     sc.quiesce()
                     execs.clear()
                 p._pyroMaxRetries = retries
